@@ -15,6 +15,7 @@ import (
 	"os"
 	"testing"
 	"testing/synctest"
+	"time"
 
 	"github.com/influxdata/influxdb/models"
 	"github.com/influxdata/influxdb/tsdb"
@@ -87,7 +88,11 @@ var ranges = []ek.Range{
 	{2, 3, true}, {2, 3, false}, {3, 3, true}, {1, 2, false}, {4, influxql.MaxTime, true}, {influxql.MinTime, 1, false}, {3, 5, true}, {2, 4, false},
 }
 
-func run(t *testing.T, alphabet []op, seq []int, index string) (res explore.StepResult) {
+func run(t *testing.T, alphabet []op, seq []int, index string) explore.StepResult {
+	return explore.Guard(120*time.Second, func() explore.StepResult { return runUnguarded(t, alphabet, seq, index) })
+}
+
+func runUnguarded(t *testing.T, alphabet []op, seq []int, index string) (res explore.StepResult) {
 	dir := ek.NewTempDir("c02")
 	defer os.RemoveAll(dir)
 	synctest.Test(t, func(t *testing.T) {
